@@ -273,7 +273,8 @@ def search(ctx):
                 else:
                     meta['illum_wavelen'] = float(rng.uniform(0.4, 0.7)) if rng.random() < 0.8 else None
                     meta['noise_sd'] = float(rng.uniform(0.01, 0.2)) if rng.random() < 0.5 else None
-                name = [None, "img", "a b"][rng.integers(0, 3)]
+                # names as users write them: with a unit sign, a Greek letter, accents (scheduled) -- text is text in every file format
+                name = [None, "img", "a b", "bead_2\u00b5m_\u03bb660", "r\u00f8d pr\u00f8ve \u00e9"][i % 5]
                 im = data_grid(vals, spacing=sp, medium_index=float(rng.uniform(1, 1.6)), illum_polarization=(0.6, 0.8) if rng.random() < 0.5 else None,
                                name=name, extra_dims={'illumination': labels} if nch > 1 else None, **meta)
                 info = dict(kind="h5", shape=list(shape), dtype=dtype.__name__, channels=nch, name=name)
@@ -319,6 +320,8 @@ def search(ctx):
                         ctx.violation("C16:tiff-quantisation", "TIFF round trip off by %.4g > stated quantisation %.4g" % (dev, rng_ * 0.500001 / 255), dict(info, kind="tiff"))
                     if not np.allclose(get_spacing(back), get_spacing(im), rtol=1e-12, atol=0) or not all(_attrs_equal(back.attrs.get(k), im.attrs.get(k)) for k in ('medium_index', 'illum_wavelen', 'noise_sd')):
                         ctx.violation("C16:tiff-metadata", "TIFF round trip lost spacing or metadata", dict(info, kind="tiff"))
+                    if name is not None and back.name != name:
+                        ctx.violation("C16:tiff-name", "TIFF round trip changed the image's name: %r -> %r" % (name, back.name), dict(info, kind="tiff"))
                     # an EXPLICIT scaling wider than the data (the same grey scale for a whole series of images): the stated quantisation
                     # is then half a level of the given range, and the values come back within it
                     if i % 3 == 1:
